@@ -388,6 +388,7 @@ CHECKS = {
             T('MC_Req', 'Req_2ctx_retry.cfg', tiers=('thorough',)),
             T('MC_Req', 'Req_2ctx_deadl.cfg', tiers=('thorough',)),
             C('req', 'TestReq', 'TraceReq', n={'quick': 120, 'thorough': 1500}),
+            T('MC_RawSock', 'Raw_xreq.cfg'), R('xreq', 'xreq'),
             C('reqscn', 'TestReq', 'TraceReq', file='req', n={'quick': 150, 'thorough': 4000},
               scn=[('MC_ReqScn', {'quick': ['ReqScn_retry.cfg'], 'thorough': ['ReqScn_retry6.cfg', 'ReqScn_deadl.cfg', 'ReqScn_be.cfg']})]),
         ],
